@@ -34,14 +34,16 @@ Reasons(e) ==
     THEN (IF e.written /\ e.rcode = 1 THEN {} ELSE {"malformed ECS option not answered with FORMERR"})
          \cup (IF e.fwd = "none" THEN {} ELSE {"malformed ECS option reached the upstream"})
     ELSE
-      (IF e.written /\ e.rcode = e.exprc THEN {} ELSE {"not answered with the upstream's rcode for this name"})
+      \* exprc = 99: the upstream's own reply is malformed (bad ECS echo): failing the request is fine
+      (IF e.exprc = 99 \/ (e.written /\ e.rcode = e.exprc) THEN {} ELSE {"not answered with the upstream's rcode for this name"})
       \cup (IF e.fwd = "none" \/ e.fwd \in Allowed(e) THEN {}
             ELSE {"subnet sent upstream is not the coarse subnet of the location (or the zero prefix when opted out)"})
       \cup (IF e.fwd = "none" \/ e.fwdscope = 0 THEN {} ELSE {"non-zero scope sent upstream"})
       \cup (IF e.opt = "zero" /\ e.content # e.q THEN {"opted-out client served an answer made for a subnet"} ELSE {})
-      \cup (IF e.content \in {Up(e, s) : s \in Allowed(e)} \cup {e.q} THEN {}
+      \cup (IF e.content \in {Up(e, s) : s \in Allowed(e)} \cup {e.q} \cup (IF e.exprc = 99 THEN {"none"} ELSE {}) THEN {}
             ELSE {"answer scoped to another subnet or family, or not an answer to this question"})
-      \cup (IF e.opt \in {"valid", "zero"}
+      \cup (IF e.exprc = 99 /\ (~e.written \/ e.rcode # 0) THEN {}
+            ELSE IF e.opt \in {"valid", "zero"}
             THEN (IF e.echoaddr = e.optaddr /\ e.echolen = e.optlen /\ e.echoscope = e.optlen THEN {}
                   ELSE {"ECS echo is not the client's own prefix with scope = source length"})
             ELSE (IF e.echoaddr = "none" THEN {} ELSE {"ECS option in the response although the query had none"}))
